@@ -28,6 +28,43 @@ import (
 
 var mainTags = []string{"div", "p", "span", "a", "li", "ul"}
 var formTags = []string{"input", "button", "fieldset", "legend", "option", "select", "optgroup", "area", "link", "em", "section", "menuitem"}
+
+// element names unknown to golang.org/x/net/html/atom (DataAtom == 0): custom elements and made-up names
+var customTags = []string{"x-a", "x-b", "x-c", "foo", "my-el", "x-a-b", "blink2", "xa"}
+
+// tag profile of the document being generated: 0 = HTML tags only, 1 = one element in three is unknown to the atom
+// table, 2 = mostly unknown elements from a 3-name pool (so that siblings of the same and of different unknown types occur)
+var docProfile int
+var docCustom []string
+
+func pickDocTag(r *vlib.Rng) string {
+	switch docProfile {
+	case 1:
+		if r.Chance(1, 3) {
+			return vlib.Pick(r, customTags)
+		}
+	case 2:
+		if r.Chance(3, 4) {
+			return vlib.Pick(r, docCustom)
+		}
+	}
+	tag := vlib.Pick(r, mainTags)
+	if r.Chance(1, 5) {
+		tag = vlib.Pick(r, formTags)
+	}
+	return tag
+}
+
+// the spelling of a tag name in the document source (html.Parse lower-cases names)
+func srcCase(r *vlib.Rng, tag string) string {
+	switch r.Intn(12) {
+	case 0:
+		return strings.ToUpper(tag)
+	case 1:
+		return strings.ToUpper(tag[:1]) + tag[1:]
+	}
+	return tag
+}
 var classWords = []string{"a", "b", "c", "A", "foo", "foo-bar", "x1", "bar"}
 var seps = []string{" ", " ", " ", "  ", "\t", "\n", " \f"}
 var ids = []string{"a", "b", "A", "x1", "main", "foo"}
@@ -125,12 +162,9 @@ func genChildren(r *vlib.Rng, sb *strings.Builder, budget *int, depth int) {
 			sb.WriteString("<!--" + vlib.Pick(r, []string{"", " ", "c"}) + "-->")
 			*budget--
 		default:
-			tag := vlib.Pick(r, mainTags)
-			if r.Chance(1, 5) {
-				tag = vlib.Pick(r, formTags)
-			}
+			tag := pickDocTag(r)
 			*budget--
-			sb.WriteString("<" + tag + genAttrs(r, tag) + ">")
+			sb.WriteString("<" + srcCase(r, tag) + genAttrs(r, tag) + ">")
 			if voidTags[tag] {
 				continue
 			}
@@ -146,6 +180,11 @@ func genChildren(r *vlib.Rng, sb *strings.Builder, budget *int, depth int) {
 
 func genDoc(r *vlib.Rng) string {
 	var sb strings.Builder
+	docProfile = r.Intn(3)
+	docCustom = nil
+	for len(docCustom) < 3 {
+		docCustom = append(docCustom, vlib.Pick(r, customTags))
+	}
 	switch r.Intn(6) {
 	case 0:
 		sb.WriteString("<!DOCTYPE html>")
@@ -316,8 +355,27 @@ func hasCombinatorArg(v selector.VerifSel) bool {
 	return false
 }
 
+func relInside(v selector.VerifSel) bool {
+	if v.Kind == "rel" {
+		return true
+	}
+	for _, c := range v.Kids {
+		if relInside(c) {
+			return true
+		}
+	}
+	return false
+}
+
 func kindsOf(v selector.VerifSel, into map[string]bool) {
 	k := v.Kind
+	if k == "rel" {
+		for _, c := range v.Kids {
+			if relInside(c) {
+				into["rel-nested"] = true
+			}
+		}
+	}
 	if k == "rel" || k == "combined" {
 		k += ":" + strings.TrimSpace(v.Strs[0])
 		if v.Strs[0] == " " {
@@ -350,8 +408,9 @@ func kindsOf(v selector.VerifSel, into map[string]bool) {
 // ---------------------------------------------------------------- selector text generator
 
 type sgen struct {
-	r   *vlib.Rng
-	mal bool // boundary stream: odd spellings
+	r       *vlib.Rng
+	mal     bool     // boundary stream: odd spellings
+	present []string // element names occurring in the document the selectors are run against
 }
 
 func (g *sgen) ws() string {
@@ -379,11 +438,25 @@ func (g *sgen) ident(pool []string) string {
 
 func (g *sgen) tag() string {
 	t := vlib.Pick(g.r, mainTags)
-	if g.r.Chance(1, 5) {
+	switch k := g.r.Intn(10); {
+	case k < 2:
 		t = vlib.Pick(g.r, append(formTags, "html", "body", "head"))
+	case k < 4 && len(g.present) > 0: // a name that occurs in this document (known to the atom table or not)
+		t = vlib.Pick(g.r, g.present)
+	case k == 4:
+		t = vlib.Pick(g.r, customTags)
 	}
-	if g.r.Chance(1, 6) {
+	switch g.r.Intn(12) {
+	case 0, 1:
 		t = strings.ToUpper(t)
+	case 2: // mixed case
+		b := []byte(t)
+		for i := range b {
+			if g.r.Bool() && b[i] >= 'a' && b[i] <= 'z' {
+				b[i] -= 32
+			}
+		}
+		t = string(b)
 	}
 	return t
 }
@@ -674,6 +747,9 @@ func (g *sgen) compoundFor(n *html.Node) string {
 				name += "child"
 			}
 			a := r.Range(-4, 4)
+			if r.Chance(1, 5) { // the a = 0 fast paths (simpleNthChildMatch / simpleNthLastChildMatch)
+				a = 0
+			}
 			m := r.Range(0, 2)
 			b := idx - a*m // idx = a*m + b
 			if r.Chance(1, 6) {
@@ -853,6 +929,9 @@ func runSel(src string, nodes []*html.Node, tags map[string]bool) (coq string, o
 	if err != nil {
 		obs.Err = err.Error()
 		tags["parse-error"] = true
+		if strings.Contains(src, "(") && (strings.Contains(src, "::") || strings.Contains(src, ":before") || strings.Contains(src, ":after") || strings.Contains(src, ":first-l")) {
+			tags["parse-error-pseudo-element-and-parenthesis"] = true
+		}
 		return "SC " + vlib.Bytes(src) + " None 0 [] [] None", obs, true, false
 	}
 	dump := selector.VerifDumpGroup(g)
@@ -889,6 +968,9 @@ func runSel(src string, nodes []*html.Node, tags map[string]bool) (coq string, o
 		sp := s.Specificity()
 		pe := s.PseudoElement()
 		obs.Spec = append(obs.Spec, [3]int{sp[0], sp[1], sp[2]})
+		if sp[0] >= 10 || sp[1] >= 10 || sp[2] >= 10 {
+			tags["specificity-column>=10"] = true
+		}
 		obs.Pseudo = append(obs.Pseudo, pe)
 		each[i] = fmt.Sprintf("SO (S3 %s %s %s) %s %s", vlib.Z(sp[0]), vlib.Z(sp[1]), vlib.Z(sp[2]), vlib.Bytes(pe), mask(nodes, s))
 		if pe != "" {
@@ -941,6 +1023,18 @@ func runDoc(doc string, sels []string, kind string) (vlib.Case, bool) {
 	var tree strings.Builder
 	coqNode(root, &tree)
 	tags := map[string]bool{}
+	unknownNames := map[string]bool{}
+	for _, n := range nodes {
+		if n.Type == html.ElementNode && n.DataAtom == 0 {
+			unknownNames[n.Data] = true
+		}
+	}
+	if len(unknownNames) > 0 {
+		tags["element-unknown-to-atom-table"] = true
+	}
+	if len(unknownNames) > 1 {
+		tags["several-unknown-element-types"] = true
+	}
 	var terms []string
 	var obs []selObs
 	nontrivial := false
@@ -1136,6 +1230,11 @@ func main() {
 		}
 	}
 
+	// 2b. Specificity.Less / Add on pairs of triples (columns around 10, 100, 256, 1000, 65536)
+	for k := 0; k < 6; k++ {
+		w.Add(lessCase(rng.Fork(), 48))
+	}
+
 	// 3. random documents x random selectors; one case in five uses the boundary stream
 	target := w.N() + *n
 	for w.N() < target {
@@ -1149,24 +1248,40 @@ func main() {
 		}
 		var elems []*html.Node
 		if root, err := html.Parse(strings.NewReader(doc)); err == nil {
+			seen := map[string]bool{}
 			walk(root, func(n *html.Node) {
 				if n.Type == html.ElementNode {
 					elems = append(elems, n)
+					if !seen[n.Data] && n.Data != "html" && n.Data != "head" && n.Data != "body" {
+						seen[n.Data] = true
+						g.present = append(g.present, n.Data)
+					}
 				}
 			})
 		}
 		sels := make([]string, *perDoc)
 		for i := range sels {
 			var s string
-			if len(elems) > 0 && i%2 == 1 { // every other selector follows a real element of this tree
+			damage := true
+			switch {
+			case len(elems) > 0 && i%2 == 1: // every other selector follows a real element of this tree
 				s = g.guided(vlib.Pick(r, elems))
 				if r.Chance(1, 5) {
 					s += ", " + g.guided(vlib.Pick(r, elems))
 				}
-			} else {
+			case i%12 == 4: // competing :is/:not/:has arguments with a specificity column of 9..13 (rarely ~20, ~100, ~256)
+				s = g.heavy()
+				damage = false
+			case i%12 == 8: // a pseudo-element at one position of a nested derivation (mostly invalid)
+				s = g.invalidPE()
+				damage = false
+			case i%12 == 10 && r.Chance(1, 2): // unbalanced / malformed nesting
+				s = g.unbalanced()
+				damage = false
+			default:
 				s = g.group(r.Range(0, 3), true)
 			}
-			if g.mal && r.Chance(1, 2) {
+			if g.mal && damage && r.Chance(1, 2) {
 				s = mutate(r, s)
 			}
 			sels[i] = s
